@@ -384,7 +384,15 @@ func (s *Server) RunHookProg(prog Obj, req Obj) HookReply {
 		if res == "" {
 			res = "things"
 		}
+		hidden := map[string]bool{}
+		// hideAtRev: {rev: [names]} -- the revisioned field also decides which children exist
+		for _, n := range AsList(AsMap(prog["hideAtRev"])[AsStr(ps["rev"])]) {
+			hidden[AsStr(n)] = true
+		}
 		for _, n := range AsList(ps["names"]) {
+			if hidden[AsStr(n)] {
+				continue
+			}
 			c := Obj{"res": res, "name": AsStr(n), "labels": AsMap(AsMap(AsMap(ps["template"])["metadata"])["labels"]),
 				"spec": Obj{"rev": ps["rev"], "nonrev": ps["nonrev"]}}
 			if len(AsMap(c["labels"])) == 0 {
